@@ -73,11 +73,29 @@ theorem down_writeHeader_some {d : Down} {c : Nat} (hs : d.status = some c) (h :
     d.writeHeader h code = d := by
   simp [Down.writeHeader, hs]
 
+theorem down_writeHeader_info (d : Down) (h : Hdr) {code : Nat} (hi : informational code = true) :
+    d.writeHeader h code = d := by
+  unfold Down.writeHeader
+  cases d.status <;> simp [hi]
+
 theorem down_write_some (C : Cfg Z) {d : Down} {c : Nat} (hs : d.status = some c) (h : Hdr) (b : Bytes) :
     d.write C h b = { d with body := d.body ++ b } := by
   simp [Down.write, Down.implicit, hs]
 
 theorem hops_cons (o : Op) (r : List Op) (h : Hdr) : hops (o :: r) h = hops r (hop o h) := rfl
+
+/-- once decided, `WriteHeader` only forwards (and the downstream ignores it) -/
+theorem gw_writeHeader_decided (C : Cfg Z) (s : GW Z) (c code : Nat) (hd : s.dec.isUndecided = false)
+    (hs : s.down.status = some c) : GW.writeHeader C s code = s := by
+  obtain ⟨dec, hdr, down, pool⟩ := s
+  simp only at hs
+  unfold GW.writeHeader
+  cases dec with
+  | undecided => cases hd
+  | gzip z => simp [down_writeHeader_some hs]
+  | plain => simp [down_writeHeader_some hs]
+
+theorem info200 : informational 200 = false := by decide
 
 /-! ### after the decision nothing but the body moves -/
 
@@ -97,8 +115,12 @@ theorem run_gzip (C : Cfg Z) (ops : List Op) (s : GW Z) (z : Z) (c : Nat)
       subst hz
       cases o with
       | wh code =>
+        have h1 := gw_writeHeader_decided C { dec := .gzip z, hdr := hdr, down := down, pool := pool } c code rfl hs
         have := ih { dec := .gzip z, hdr := hdr, down := down, pool := pool } z rfl hs
-        simpa [GW.run, GW.step, GW.writeHeader, down_writeHeader_some hs, writesOf, hops, hop] using this
+        simpa [GW.run, GW.step, h1, writesOf, hops, hop] using this
+      | fl =>
+        have := ih { dec := .gzip z, hdr := hdr, down := down, pool := pool } z rfl hs
+        simpa [GW.run, GW.step, writesOf, hops, hop] using this
       | w b =>
         have hs' : ({ down with body := down.body ++ (C.comp.write z b).2 } : Down).status = some c := hs
         have := ih { dec := .gzip (C.comp.write z b).1, hdr := hdr,
@@ -133,8 +155,12 @@ theorem run_plain (C : Cfg Z) (ops : List Op) (s : GW Z) (c : Nat)
       subst hp
       cases o with
       | wh code =>
+        have h1 := gw_writeHeader_decided C { dec := .plain, hdr := hdr, down := down, pool := pool } c code rfl hs
         have := ih { dec := .plain, hdr := hdr, down := down, pool := pool } rfl hs
-        simpa [GW.run, GW.step, GW.writeHeader, down_writeHeader_some hs, writesOf, hops, hop] using this
+        simpa [GW.run, GW.step, h1, writesOf, hops, hop] using this
+      | fl =>
+        have := ih { dec := .plain, hdr := hdr, down := down, pool := pool } rfl hs
+        simpa [GW.run, GW.step, writesOf, hops, hop] using this
       | w b =>
         have hs' : ({ down with body := down.body ++ b } : Down).status = some c := hs
         have := ih { dec := .plain, hdr := hdr, down := { down with body := down.body ++ b }, pool := pool } rfl hs'
@@ -151,8 +177,8 @@ theorem run_plain (C : Cfg Z) (ops : List Op) (s : GW Z) (c : Nat)
         have := ih { dec := .plain, hdr := hdel hdr k, down := down, pool := pool } rfl hs
         simpa [GW.run, GW.step, writesOf, hops, hop] using this
 
-theorem bareRun_decided (C : Cfg Z) (ops : List Op) (h : Hdr) (d : Down) (c : Nat) (hs : d.status = some c) :
-    bareRun C (h, d) ops = (hops ops h, { d with body := d.body ++ (writesOf ops).flatten }) := by
+theorem bareRun_decided (C : Cfg Z) (cf : Bool) (ops : List Op) (h : Hdr) (d : Down) (c : Nat) (hs : d.status = some c) :
+    bareRun C cf (h, d) ops = (hops ops h, { d with body := d.body ++ (writesOf ops).flatten }) := by
   induction ops generalizing h d with
   | nil => simp [bareRun, hops, writesOf]
   | cons o r ih =>
@@ -160,6 +186,9 @@ theorem bareRun_decided (C : Cfg Z) (ops : List Op) (h : Hdr) (d : Down) (c : Na
     | wh code =>
       have := ih h d hs
       simpa [bareRun, bareStep, down_writeHeader_some hs, writesOf, hops, hop] using this
+    | fl =>
+      have := ih h d hs
+      simpa [bareRun, bareStep, Down.flush, down_writeHeader_some hs, writesOf, hops, hop] using this
     | w b =>
       have hs' : ({ d with body := d.body ++ b } : Down).status = some c := hs
       have := ih h { d with body := d.body ++ b } hs'
@@ -183,8 +212,8 @@ def gzipPool (C : Cfg Z) (pool : List Z) (ws : List Bytes) : List Z :=
 
 theorem close_run (C : Cfg Z) (ops : List Op) (hdr : Hdr) (pool : List Z) :
     let f := GW.close C (GW.run C { dec := .undecided, hdr := hdr, down := {}, pool := pool } ops)
-    (decision C hdr ops = none → f = { dec := .undecided, hdr := hops ops hdr, down := {}, pool := pool }) ∧
-    (∀ h c, decision C hdr ops = some (h, c) →
+    (decision C false hdr ops = none → f = { dec := .undecided, hdr := hops ops hdr, down := {}, pool := pool }) ∧
+    (∀ h c, decision C false hdr ops = some (h, c) →
       ((bodyAllowedForStatus c && isCompressable C h) = true →
         f.dec.isGzip = true ∧ f.down = gzipDown C pool h c (writesOf ops) ∧ f.pool = gzipPool C pool (writesOf ops)) ∧
       ((bodyAllowedForStatus c && isCompressable C h) = false →
@@ -196,23 +225,30 @@ theorem close_run (C : Cfg Z) (ops : List Op) (hdr : Hdr) (pool : List Z) :
     | set k v => simpa [decision, GW.run, GW.step, hops, hop, writesOf] using ih (hset hdr k v)
     | add k v => simpa [decision, GW.run, GW.step, hops, hop, writesOf] using ih (hadd hdr k v)
     | del k => simpa [decision, GW.run, GW.step, hops, hop, writesOf] using ih (hdel hdr k)
+    | fl => simpa [decision, GW.run, GW.step, hops, hop, writesOf] using ih hdr
     | wh code =>
-      simp only [decision, GW.run, List.foldl_cons, GW.step, GW.writeHeader, writesOf]
-      refine ⟨by simp, ?_⟩
-      intro h c hd
-      simp only [Option.some.injEq, Prod.mk.injEq] at hd
-      obtain ⟨rfl, rfl⟩ := hd
-      constructor
-      · intro hc
-        simp only [hc, if_true]
-        rw [show List.foldl (GW.step C) _ r = GW.run C _ r from rfl,
-            run_gzip C r _ (C.comp.reset (poolGet C.fresh pool).1) code rfl (by simp [Down.writeHeader])]
-        simp [GW.close, Dec.isGzip, gzipDown, gzipPool, Down.writeHeader, down_write_some C (c := code)]
-      · intro hc
-        simp only [hc]
-        rw [show List.foldl (GW.step C) _ r = GW.run C _ r from rfl,
-            run_plain C r _ code rfl (by simp [Down.writeHeader])]
-        simp [GW.close, Dec.isGzip, Down.writeHeader]
+      by_cases hinfo : informational code = true
+      · have hstep : GW.writeHeader C { dec := .undecided, hdr := hdr, down := {}, pool := pool } code =
+            { dec := .undecided, hdr := hdr, down := {}, pool := pool } := by
+          simp [GW.writeHeader, hinfo, down_writeHeader_info]
+        simpa [decision, hinfo, GW.run, GW.step, hstep, hops, hop, writesOf] using ih hdr
+      · have hinfo' : informational code = false := by simpa using hinfo
+        simp only [decision, hinfo', GW.run, List.foldl_cons, GW.step, GW.writeHeader, writesOf]
+        refine ⟨by simp, ?_⟩
+        intro h c hd
+        simp only [Bool.false_eq_true, if_false, Option.some.injEq, Prod.mk.injEq] at hd
+        obtain ⟨rfl, rfl⟩ := hd
+        constructor
+        · intro hc
+          simp only [Bool.false_eq_true, if_false, hc, if_true]
+          rw [show List.foldl (GW.step C) _ r = GW.run C _ r from rfl,
+              run_gzip C r _ (C.comp.reset (poolGet C.fresh pool).1) code rfl (by simp [Down.writeHeader, hinfo'])]
+          simp [GW.close, Dec.isGzip, gzipDown, gzipPool, Down.writeHeader, hinfo', down_write_some C (c := code)]
+        · intro hc
+          simp only [Bool.false_eq_true, if_false, hc]
+          rw [show List.foldl (GW.step C) _ r = GW.run C _ r from rfl,
+              run_plain C r _ code rfl (by simp [Down.writeHeader, hinfo'])]
+          simp [GW.close, Dec.isGzip, Down.writeHeader, hinfo']
     | w b =>
       simp only [decision, GW.run, List.foldl_cons, GW.step, writesOf]
       refine ⟨by simp, ?_⟩
@@ -227,21 +263,21 @@ theorem close_run (C : Cfg Z) (ops : List Op) (hdr : Hdr) (pool : List Z) :
         split <;> rfl
       constructor
       · intro hc
-        simp only [GW.write, GW.decideOnWrite, hfill, GW.writeHeader, hc, if_true]
+        simp only [GW.write, GW.decideOnWrite, hfill, GW.writeHeader, info200, Bool.false_eq_true, if_false, hc, if_true]
         rw [show List.foldl (GW.step C) _ r = GW.run C _ r from rfl,
             run_gzip C r _ (C.comp.write (C.comp.reset (poolGet C.fresh pool).1) b).1 200 rfl
-              (by simp [Down.writeHeader, Down.write, Down.implicit])]
+              (by simp [Down.writeHeader, Down.write, Down.implicit, info200])]
         simp [GW.close, Dec.isGzip, gzipDown, gzipPool, Down.writeHeader, Down.write, Down.implicit, feed_cons,
-              List.append_assoc]
+              List.append_assoc, info200]
       · intro hc
-        simp only [GW.write, GW.decideOnWrite, hfill, GW.writeHeader, hc]
+        simp only [GW.write, GW.decideOnWrite, hfill, GW.writeHeader, info200, Bool.false_eq_true, if_false, hc]
         rw [show List.foldl (GW.step C) _ r = GW.run C _ r from rfl,
-            run_plain C r _ 200 rfl (by simp [Down.writeHeader, Down.write, Down.implicit])]
-        simp [GW.close, Dec.isGzip, Down.writeHeader, Down.write, Down.implicit]
+            run_plain C r _ 200 rfl (by simp [Down.writeHeader, Down.write, Down.implicit, info200])]
+        simp [GW.close, Dec.isGzip, Down.writeHeader, Down.write, Down.implicit, info200]
 
-theorem bare_obs (C : Cfg Z) (ops : List Op) (hdr : Hdr) :
-    (bareRun C (hdr, {}) ops).2.obs (bareRun C (hdr, {}) ops).1 =
-      match decision C hdr ops with
+theorem bare_obs (C : Cfg Z) (cf : Bool) (ops : List Op) (hdr : Hdr) :
+    (bareRun C cf (hdr, {}) ops).2.obs (bareRun C cf (hdr, {}) ops).1 =
+      match decision C cf hdr ops with
       | none => { status := 200, hdr := hops ops hdr, body := [] }
       | some (h, c) => { status := c, hdr := h, body := (writesOf ops).flatten } := by
   induction ops generalizing hdr with
@@ -251,17 +287,49 @@ theorem bare_obs (C : Cfg Z) (ops : List Op) (hdr : Hdr) :
     | set k v => simpa [decision, bareRun, bareStep, hops, hop, writesOf] using ih (hset hdr k v)
     | add k v => simpa [decision, bareRun, bareStep, hops, hop, writesOf] using ih (hadd hdr k v)
     | del k => simpa [decision, bareRun, bareStep, hops, hop, writesOf] using ih (hdel hdr k)
+    | fl =>
+      cases cf with
+      | false => simpa [decision, bareRun, bareStep, hops, hop, writesOf] using ih hdr
+      | true =>
+        simp only [decision, if_true, bareRun, List.foldl_cons, bareStep, writesOf]
+        rw [show List.foldl (bareStep C true) _ r = bareRun C true _ r from rfl,
+            bareRun_decided C true r hdr _ 200 (by simp [Down.flush, Down.writeHeader, info200])]
+        simp [Down.obs, Down.flush, Down.writeHeader, info200]
     | wh code =>
-      simp only [decision, bareRun, List.foldl_cons, bareStep, writesOf]
-      rw [show List.foldl (bareStep C) _ r = bareRun C _ r from rfl,
-          bareRun_decided C r hdr _ code (by simp [Down.writeHeader])]
-      simp [Down.obs, Down.writeHeader]
+      by_cases hinfo : informational code = true
+      · have hstep : ({} : Down).writeHeader hdr code = {} := down_writeHeader_info _ _ hinfo
+        simpa [decision, hinfo, bareRun, bareStep, hstep, hops, hop, writesOf] using ih hdr
+      · have hinfo' : informational code = false := by simpa using hinfo
+        simp only [decision, hinfo', Bool.false_eq_true, if_false, bareRun, List.foldl_cons, bareStep, writesOf]
+        rw [show List.foldl (bareStep C cf) _ r = bareRun C cf _ r from rfl,
+            bareRun_decided C cf r hdr _ code (by simp [Down.writeHeader, hinfo'])]
+        simp [Down.obs, Down.writeHeader, hinfo']
     | w b =>
       simp only [decision, bareRun, List.foldl_cons, bareStep, writesOf]
-      rw [show List.foldl (bareStep C) _ r = bareRun C _ r from rfl,
-          bareRun_decided C r hdr _ 200 (by simp [Down.write, Down.implicit])]
+      rw [show List.foldl (bareStep C cf) _ r = bareRun C cf _ r from rfl,
+          bareRun_decided C cf r hdr _ 200 (by simp [Down.write, Down.implicit])]
       simp only [Down.obs, Down.write, Down.implicit, hset, canon_ContentType]
       split <;> simp_all
+
+/-- the script with its flush calls removed -/
+def dropFlush : List Op → List Op
+  | [] => []
+  | .fl :: r => dropFlush r
+  | o :: r => o :: dropFlush r
+
+/-- a flush is invisible to the gzip writer machine -/
+theorem run_without_flush (C : Cfg Z) (ops : List Op) (s : GW Z) :
+    GW.run C s ops = GW.run C s (dropFlush ops) := by
+  induction ops generalizing s with
+  | nil => rfl
+  | cons o r ih =>
+    cases o with
+    | fl => simpa [GW.run, GW.step, dropFlush] using ih s
+    | wh c => simpa [GW.run, dropFlush] using ih _
+    | w b => simpa [GW.run, dropFlush] using ih _
+    | set k v => simpa [GW.run, dropFlush] using ih _
+    | add k v => simpa [GW.run, dropFlush] using ih _
+    | del k => simpa [GW.run, dropFlush] using ih _
 
 /-! ### the pool -/
 
